@@ -81,6 +81,7 @@ def run(ctx):
 def _run(ctx):
     from harness.replay import framing as rf
     h = rf.FramingHarness()
+    h._fresh()          # fail fast when the driver cannot even complete a handshake over this read path
     t0 = time.time()
     phases = {}
 
@@ -90,6 +91,7 @@ def _run(ctx):
         t0 = time.time()
         ctx.note("phase_wall_s", dict(phases))
     replayed = 0
+    diverged = 0
     feeds = 0
     graphs = []
 
@@ -179,6 +181,7 @@ def _run(ctx):
                 ctx.sample({"direction": "spec->code", "frames": frames, "reads": reads,
                             "final": {k: v for k, v in expected[-1].items() if k in ("sent", "order", "buflen")}})
             if d:
+                diverged += 1
                 _report(ctx, frames, reads, d, "spec->code")
                 if ctx.violations >= 25:
                     break
@@ -189,7 +192,7 @@ def _run(ctx):
     ctx.note("graph_edges_replayed", covered_edges)
     ctx.note("exhaustive", covered_edges == total_edges)
     ctx.note("walks_with_multi_frame_read", multi)
-    if multi == 0:
+    if multi == 0 and not ctx.violations:
         raise tlc.MachineryError("no read delivering two frames at once in the replayed walks")
     ctx.note("behaviours_replayed_graph", replayed)
     phase("replay_graph")
@@ -225,6 +228,7 @@ def _run(ctx):
             all_split_paths += 1
             feeds += len(reads)
             if d:
+                diverged += 1
                 _report(ctx, frames, reads, d, "spec->code(all splits)")
                 break
         if ctx.violations >= 25:
@@ -252,14 +256,16 @@ def _run(ctx):
             nb += 1
             feeds += len(reads)
             if d:
+                diverged += 1
                 _report(ctx, frames, reads, d, "spec->code(simulated)")
         replayed += nb
         ctx.note("simulated_behaviours_replayed", nb)
         if nb == 0:
             raise tlc.MachineryError("TLC -simulate produced no behaviour")
     phase("tlc_big_and_simulation")
-    ctx.traces_validated += replayed
+    ctx.traces_validated += replayed - diverged
     ctx.note("behaviours_replayed", replayed)
+    ctx.note("behaviours_diverged", diverged)
     ctx.note("reads_replayed", feeds)
     ctx.note("connections_opened", h.opened)
 
